@@ -32,6 +32,19 @@ pub(crate) struct DotChain {
     links: Vec<DotLookupOption>,
 }
 
+impl super::Dependencies for DotChain {
+    /// names used by the arguments of the method calls in the chain
+    fn dependencies(&self) -> Vec<super::Dependency> {
+        self.links
+            .iter()
+            .flat_map(|link| match link {
+                DotLookupOption::FunctionCall { arguments, .. } => arguments.net_dependencies(),
+                DotLookupOption::Name { .. } => vec![],
+            })
+            .collect()
+    }
+}
+
 impl Compile for DotLookupOption {
     fn compile(
         &self,
